@@ -29,6 +29,7 @@ def run(chk: Check) -> None:
     ix = get_index()
     run_crawl_order(chk, ix)
     run_abspath_normalised(chk, ix)
+    run_verify_module_is_universal(chk, ix)
     r1 = chk.rule("R18.1", "load_graph: every insertion of a State into the graph is dominated by the duplicate test for its kind (module id already in graph / file already seen under another id), whose clash branch reports a blocker and raises", floor=5)
     lg = ix.func("mypy.build.load_graph")
     g = CFG(lg.node)
@@ -167,3 +168,49 @@ def run_abspath_normalised(chk: Check, ix) -> None:
         r4.violation(key, lg.loc(uses[0]), "seen_files is keyed by something other than the normalised absolute path")
     else:
         raise AnalysisError("load_graph: seen_files table not found")
+
+
+def run_verify_module_is_universal(chk: Check, ix) -> None:
+    """R18.5: `every containing package has an __init__` is decided level by level, not from the topmost level that has one."""
+    r5 = chk.rule("R18.5", "modulefinder.verify_module (is this file importable under the dotted name without namespace packages?) is a universal statement over the id.count('.') containing directories: it fails as soon as one level lacks an __init__ (a loop over the levels with `return False` under a negated __init__ test, or `all(...)` over them). It is not derived from a maximum over the levels (highest_init_level computes the topmost level that has an __init__ and says nothing about gaps below it): with a gap, `a.b.c` would resolve to a file that the file-to-module direction (crawl_up) calls `c`", floor=1)
+    m = ix.module("mypy.modulefinder")
+    f = m.functions.get("verify_module")
+    if f is None:
+        raise AnalysisError("modulefinder.verify_module not found")
+
+    def level_loops(fn):
+        return [lp for lp in ast.walk(fn.node) if isinstance(lp, ast.For) and "count" in norm(lp.iter)]
+
+    def universal(fn) -> bool:
+        for lp in level_loops(fn):
+            for i in ast.walk(lp):
+                if isinstance(i, ast.If) and any(isinstance(s, ast.Return) and isinstance(s.value, ast.Constant) and s.value.value is False for s in i.body):
+                    t = i.test
+                    if isinstance(t, ast.UnaryOp) and isinstance(t.op, ast.Not) and "__init__" in norm(t.operand):
+                        return True
+        for r in ast.walk(fn.node):
+            if isinstance(r, ast.Return) and isinstance(r.value, ast.Call) and call_name(r.value) == "all" and "__init__" in norm(r.value):
+                return True
+        return False
+
+    def maximum(fn) -> bool:
+        for lp in level_loops(fn):
+            has_exit = any(isinstance(x, (ast.Return, ast.Break)) for x in ast.walk(lp))
+            assigns = [a for i in ast.walk(lp) if isinstance(i, ast.If) for a in i.body if isinstance(a, ast.Assign)]
+            if assigns and not has_exit:
+                return True
+        return False
+    key = "verify_module checks every containing package for an __init__"
+    if universal(f):
+        r5.ok(key, f.loc())
+        return
+    callees = [m.functions[call_name(c)] for c in ast.walk(f.node) if isinstance(c, ast.Call) and call_name(c) in m.functions and call_name(c) != f.name]
+    for g_ in callees:
+        if universal(g_):
+            r5.ok(key, f.loc(), f"through {g_.name}")
+            return
+    mx = [g_ for g_ in callees if maximum(g_)]
+    if mx:
+        r5.violation(key, f.loc(), f"the answer is derived from {mx[0].name}(), which keeps the *highest* level that has an __init__ (an assignment inside the loop over the levels, no early exit): `a/__init__.py` + `a/b/c.py` without `a/b/__init__.py` passes, so with --no-namespace-packages the name a.b.c resolves to a file the crawl maps to module `c` (`Source file found twice under different module names`, and `-p a` silently accepts the import)")
+    else:
+        raise AnalysisError("verify_module: neither a level-by-level check nor a recognised maximum; the rule cannot classify the new shape")
